@@ -5,8 +5,8 @@ import py_checks
 import runner_props
 
 PROP = "C16"
-LEAN_MODULES = ["PamsProps.C16", "PamsProps.SimE2E", "PamsProps.SrcRunner"]
-NAMESPACES = ["Pams.C16", "Pams.C16", "Pams.C16"]
+LEAN_MODULES = ["PamsProps.C16", "PamsProps.SimE2E", "PamsProps.SrcRunner", "PamsProps.SrcHookReg"]
+NAMESPACES = ["Pams.C16", "Pams.C16", "Pams.C16", "Pams.C16"]
 DRIVERS = ["Events", "Runner", "Sim", "PyRun"]
 TRUSTED = [
     "arithmetic theorems are over ordered fields; the same Lean definitions are evaluated at Float and compared with Python bit-for-bit (tolerance 1e-12 only where noted)",
